@@ -58,6 +58,14 @@ def _scalar(x):
     return "py:" + repr(x)
 
 
+def indexed_scalar(x):
+    """what channel[i] returned: as _scalar, but a bare NumPy record (np.void) instead of the library's scalar
+    timestamp type is told apart (every position of a channel must answer an integer index with the same kind of object)"""
+    if isinstance(x, np.void):
+        return "void:" + _scalar(x)
+    return _scalar(x)
+
+
 def expected_elems(ty, values):
     """values as produced by the encoder (le bytes / str) -> same canonical form as elems()."""
     if ty == "String":
@@ -115,7 +123,7 @@ def expected_prop_canon(pty, val):
 
 def project_file(f, data=True, raw_timestamps=True):
     """TdmsFile -> view dict: objects, groups, per channel dtype/len/data, properties."""
-    view = {"groups": [], "chans": {}, "props": {}, "gchans": {}}
+    view = {"groups": [], "chans": {}, "props": {}, "gchans": {}, "version": f.tdms_version}
     view["props"]["/"] = {k: prop_canon(v) for k, v in f.properties.items()}
     for g in f.groups():
         view["groups"].append(g.path)
@@ -132,4 +140,35 @@ def project_file(f, data=True, raw_timestamps=True):
                 except Exception as e:  # noqa
                     ch["error"] = "%s: %s" % (type(e).__name__, e)
             view["chans"][c.path] = ch
+    probs = api_consistency(f)
+    if probs:
+        view["api"] = probs
     return view
+
+
+def api_consistency(f):
+    """the container protocol of TdmsFile / TdmsGroup tells the same story as groups() / channels()
+    (iteration, len, in, indexing by name, name / group_name / path of what is found)"""
+    probs = []
+    try:
+        groups = f.groups()
+        names = [g.name for g in groups]
+        if list(f) != names:
+            probs.append("iter(file) %r != names of groups() %r" % (list(f), names))
+        if len(f) != len(groups):
+            probs.append("len(file) %d != %d" % (len(f), len(groups)))
+        for g in groups:
+            if g.name not in f or f[g.name].path != g.path:
+                probs.append("file[%r] is not the group %r" % (g.name, g.path))
+            chans = g.channels()
+            cn = [c.name for c in chans]
+            if list(g) != cn or len(g) != len(chans):
+                probs.append("iter/len of group %r disagree with channels()" % g.path)
+            for c in chans:
+                if c.name not in g or g[c.name].path != c.path or c.group_name != g.name:
+                    probs.append("group[%r] is not the channel %r" % (c.name, c.path))
+        if "\x00no such group" in f:
+            probs.append("a name that is no group is `in' the file")
+    except Exception as e:  # noqa
+        probs.append("%s: %s" % (type(e).__name__, e))
+    return probs[:4]
